@@ -582,6 +582,11 @@ module N =
                   | N0 -> (N0, a)
                   | Npos _ -> pos_div_eucl na b)
 
+  (** val div : n -> n -> n **)
+
+  let div a b =
+    fst (div_eucl a b)
+
   (** val modulo : n -> n -> n **)
 
   let modulo a b =
@@ -5424,6 +5429,571 @@ let fmt_of_ws ws ignored =
   let last_line = trim_end_cr (after_last_lf ws) in
   { f_ignored = ignored; f_nl = (u16_sat (count_lf0 ws)); f_ind = N0;
   f_cont = N0; f_sp = (u16_sat (N.of_nat (ws_prefix_len last_line))) }
+
+(** val scalar_ok : n -> bool **)
+
+let scalar_ok c =
+  (||)
+    (N.ltb c (Npos (XO (XO (XO (XO (XO (XO (XO (XO (XO (XO (XO (XI (XI (XO
+      (XI XH)))))))))))))))))
+    ((&&)
+      (N.ltb (Npos (XI (XI (XI (XI (XI (XI (XI (XI (XI (XI (XI (XI (XI (XO
+        (XI XH)))))))))))))))) c)
+      (N.leb c (Npos (XI (XI (XI (XI (XI (XI (XI (XI (XI (XI (XI (XI (XI (XI
+        (XI (XI (XO (XO (XO (XO XH)))))))))))))))))))))))
+
+type text = n list
+
+(** val ocons : n -> n list option -> n list option **)
+
+let ocons c = function
+| Some l -> Some (c :: l)
+| None -> None
+
+(** val utf8_encode_char : n -> bytes **)
+
+let utf8_encode_char c =
+  if N.ltb c (Npos (XO (XO (XO (XO (XO (XO (XO XH))))))))
+  then c :: []
+  else if N.ltb c (Npos (XO (XO (XO (XO (XO (XO (XO (XO (XO (XO (XO
+            XH))))))))))))
+       then (N.add (Npos (XO (XO (XO (XO (XO (XO (XI XH))))))))
+              (N.div c (Npos (XO (XO (XO (XO (XO (XO XH))))))))) :: (
+              (N.add (Npos (XO (XO (XO (XO (XO (XO (XO XH))))))))
+                (N.modulo c (Npos (XO (XO (XO (XO (XO (XO XH))))))))) :: [])
+       else if N.ltb c (Npos (XO (XO (XO (XO (XO (XO (XO (XO (XO (XO (XO (XO
+                 (XO (XO (XO (XO XH)))))))))))))))))
+            then (N.add (Npos (XO (XO (XO (XO (XO (XI (XI XH))))))))
+                   (N.div c (Npos (XO (XO (XO (XO (XO (XO (XO (XO (XO (XO (XO
+                     (XO XH))))))))))))))) :: ((N.add (Npos (XO (XO (XO (XO
+                                                 (XO (XO (XO XH))))))))
+                                                 (N.modulo
+                                                   (N.div c (Npos (XO (XO (XO
+                                                     (XO (XO (XO XH))))))))
+                                                   (Npos (XO (XO (XO (XO (XO
+                                                   (XO XH))))))))) :: (
+                   (N.add (Npos (XO (XO (XO (XO (XO (XO (XO XH))))))))
+                     (N.modulo c (Npos (XO (XO (XO (XO (XO (XO XH))))))))) :: []))
+            else (N.add (Npos (XO (XO (XO (XO (XI (XI (XI XH))))))))
+                   (N.div c (Npos (XO (XO (XO (XO (XO (XO (XO (XO (XO (XO (XO
+                     (XO (XO (XO (XO (XO (XO (XO XH))))))))))))))))))))) :: (
+                   (N.add (Npos (XO (XO (XO (XO (XO (XO (XO XH))))))))
+                     (N.modulo
+                       (N.div c (Npos (XO (XO (XO (XO (XO (XO (XO (XO (XO (XO
+                         (XO (XO XH)))))))))))))) (Npos (XO (XO (XO (XO (XO
+                       (XO XH))))))))) :: ((N.add (Npos (XO (XO (XO (XO (XO
+                                             (XO (XO XH))))))))
+                                             (N.modulo
+                                               (N.div c (Npos (XO (XO (XO (XO
+                                                 (XO (XO XH)))))))) (Npos (XO
+                                               (XO (XO (XO (XO (XO XH))))))))) :: (
+                   (N.add (Npos (XO (XO (XO (XO (XO (XO (XO XH))))))))
+                     (N.modulo c (Npos (XO (XO (XO (XO (XO (XO XH))))))))) :: [])))
+
+(** val utf8_encode : text -> bytes **)
+
+let utf8_encode t =
+  flat_map utf8_encode_char t
+
+(** val utf8_decode : bytes -> text option **)
+
+let rec utf8_decode = function
+| [] -> Some []
+| b0 :: r0 ->
+  if N.ltb b0 (Npos (XO (XO (XO (XO (XO (XO (XO XH))))))))
+  then ocons b0 (utf8_decode r0)
+  else if (&&) (N.leb (Npos (XO (XI (XO (XO (XO (XO (XI XH)))))))) b0)
+            (N.leb b0 (Npos (XI (XI (XI (XI (XI (XO (XI XH)))))))))
+       then (match r0 with
+             | [] -> None
+             | b1 :: r1 ->
+               if is_cont b1
+               then ocons
+                      (N.add
+                        (N.mul
+                          (N.sub b0 (Npos (XO (XO (XO (XO (XO (XO (XI
+                            XH))))))))) (Npos (XO (XO (XO (XO (XO (XO
+                          XH))))))))
+                        (N.sub b1 (Npos (XO (XO (XO (XO (XO (XO (XO
+                          XH)))))))))) (utf8_decode r1)
+               else None)
+       else if (&&) (N.leb (Npos (XO (XO (XO (XO (XO (XI (XI XH)))))))) b0)
+                 (N.leb b0 (Npos (XI (XI (XI (XI (XO (XI (XI XH)))))))))
+            then (match r0 with
+                  | [] -> None
+                  | b1 :: l0 ->
+                    (match l0 with
+                     | [] -> None
+                     | b2 :: r2 ->
+                       let c =
+                         N.add
+                           (N.add
+                             (N.mul
+                               (N.sub b0 (Npos (XO (XO (XO (XO (XO (XI (XI
+                                 XH))))))))) (Npos (XO (XO (XO (XO (XO (XO
+                               (XO (XO (XO (XO (XO (XO XH))))))))))))))
+                             (N.mul
+                               (N.sub b1 (Npos (XO (XO (XO (XO (XO (XO (XO
+                                 XH))))))))) (Npos (XO (XO (XO (XO (XO (XO
+                               XH)))))))))
+                           (N.sub b2 (Npos (XO (XO (XO (XO (XO (XO (XO
+                             XH)))))))))
+                       in
+                       if (&&)
+                            ((&&) ((&&) (is_cont b1) (is_cont b2))
+                              (N.leb (Npos (XO (XO (XO (XO (XO (XO (XO (XO
+                                (XO (XO (XO XH)))))))))))) c)) (scalar_ok c)
+                       then ocons c (utf8_decode r2)
+                       else None))
+            else if (&&)
+                      (N.leb (Npos (XO (XO (XO (XO (XI (XI (XI XH)))))))) b0)
+                      (N.leb b0 (Npos (XO (XO (XI (XO (XI (XI (XI XH)))))))))
+                 then (match r0 with
+                       | [] -> None
+                       | b1 :: l0 ->
+                         (match l0 with
+                          | [] -> None
+                          | b2 :: l1 ->
+                            (match l1 with
+                             | [] -> None
+                             | b3 :: r3 ->
+                               let c =
+                                 N.add
+                                   (N.add
+                                     (N.add
+                                       (N.mul
+                                         (N.sub b0 (Npos (XO (XO (XO (XO (XI
+                                           (XI (XI XH))))))))) (Npos (XO (XO
+                                         (XO (XO (XO (XO (XO (XO (XO (XO (XO
+                                         (XO (XO (XO (XO (XO (XO (XO
+                                         XH))))))))))))))))))))
+                                       (N.mul
+                                         (N.sub b1 (Npos (XO (XO (XO (XO (XO
+                                           (XO (XO XH))))))))) (Npos (XO (XO
+                                         (XO (XO (XO (XO (XO (XO (XO (XO (XO
+                                         (XO XH)))))))))))))))
+                                     (N.mul
+                                       (N.sub b2 (Npos (XO (XO (XO (XO (XO
+                                         (XO (XO XH))))))))) (Npos (XO (XO
+                                       (XO (XO (XO (XO XH)))))))))
+                                   (N.sub b3 (Npos (XO (XO (XO (XO (XO (XO
+                                     (XO XH)))))))))
+                               in
+                               if (&&)
+                                    ((&&)
+                                      ((&&) ((&&) (is_cont b1) (is_cont b2))
+                                        (is_cont b3))
+                                      (N.leb (Npos (XO (XO (XO (XO (XO (XO
+                                        (XO (XO (XO (XO (XO (XO (XO (XO (XO
+                                        (XO XH))))))))))))))))) c))
+                                    (N.leb c (Npos (XI (XI (XI (XI (XI (XI
+                                      (XI (XI (XI (XI (XI (XI (XI (XI (XI (XI
+                                      (XO (XO (XO (XO XH))))))))))))))))))))))
+                               then ocons c (utf8_decode r3)
+                               else None)))
+                 else None
+
+(** val utf16_units_char : n -> n list **)
+
+let utf16_units_char c =
+  if N.ltb c (Npos (XO (XO (XO (XO (XO (XO (XO (XO (XO (XO (XO (XO (XO (XO
+       (XO (XO XH)))))))))))))))))
+  then c :: []
+  else (N.add (Npos (XO (XO (XO (XO (XO (XO (XO (XO (XO (XO (XO (XI (XI (XO
+         (XI XH))))))))))))))))
+         (N.div
+           (N.sub c (Npos (XO (XO (XO (XO (XO (XO (XO (XO (XO (XO (XO (XO (XO
+             (XO (XO (XO XH)))))))))))))))))) (Npos (XO (XO (XO (XO (XO (XO
+           (XO (XO (XO (XO XH))))))))))))) :: ((N.add (Npos (XO (XO (XO (XO
+                                                 (XO (XO (XO (XO (XO (XO (XI
+                                                 (XI (XI (XO (XI
+                                                 XH))))))))))))))))
+                                                 (N.modulo
+                                                   (N.sub c (Npos (XO (XO (XO
+                                                     (XO (XO (XO (XO (XO (XO
+                                                     (XO (XO (XO (XO (XO (XO
+                                                     (XO XH))))))))))))))))))
+                                                   (Npos (XO (XO (XO (XO (XO
+                                                   (XO (XO (XO (XO (XO
+                                                   XH))))))))))))) :: [])
+
+(** val utf16_units : text -> n list **)
+
+let utf16_units t =
+  flat_map utf16_units_char t
+
+(** val u16_le : n -> bytes **)
+
+let u16_le u =
+  (N.modulo u (Npos (XO (XO (XO (XO (XO (XO (XO (XO XH)))))))))) :: (
+    (N.div u (Npos (XO (XO (XO (XO (XO (XO (XO (XO XH)))))))))) :: [])
+
+(** val u16_be : n -> bytes **)
+
+let u16_be u =
+  (N.div u (Npos (XO (XO (XO (XO (XO (XO (XO (XO XH)))))))))) :: ((N.modulo u
+                                                                    (Npos (XO
+                                                                    (XO (XO
+                                                                    (XO (XO
+                                                                    (XO (XO
+                                                                    (XO
+                                                                    XH)))))))))) :: [])
+
+(** val encode_utf16 : (n -> bytes) -> text -> bytes **)
+
+let encode_utf16 u16_encoder t =
+  flat_map u16_encoder (utf16_units t)
+
+(** val encode_utf16le : text -> bytes **)
+
+let encode_utf16le =
+  encode_utf16 u16_le
+
+(** val encode_utf16be : text -> bytes **)
+
+let encode_utf16be =
+  encode_utf16 u16_be
+
+(** val units_of_bytes : bool -> bytes -> n list option **)
+
+let rec units_of_bytes le = function
+| [] -> Some []
+| a :: l0 ->
+  (match l0 with
+   | [] -> None
+   | b :: r ->
+     if (&&) (N.ltb a (Npos (XO (XO (XO (XO (XO (XO (XO (XO XH))))))))))
+          (N.ltb b (Npos (XO (XO (XO (XO (XO (XO (XO (XO XH))))))))))
+     then ocons
+            (if le
+             then N.add a
+                    (N.mul (Npos (XO (XO (XO (XO (XO (XO (XO (XO XH)))))))))
+                      b)
+             else N.add
+                    (N.mul (Npos (XO (XO (XO (XO (XO (XO (XO (XO XH)))))))))
+                      a) b) (units_of_bytes le r)
+     else None)
+
+(** val is_high : n -> bool **)
+
+let is_high u =
+  (&&)
+    (N.leb (Npos (XO (XO (XO (XO (XO (XO (XO (XO (XO (XO (XO (XI (XI (XO (XI
+      XH)))))))))))))))) u)
+    (N.leb u (Npos (XI (XI (XI (XI (XI (XI (XI (XI (XI (XI (XO (XI (XI (XO
+      (XI XH)))))))))))))))))
+
+(** val is_low : n -> bool **)
+
+let is_low u =
+  (&&)
+    (N.leb (Npos (XO (XO (XO (XO (XO (XO (XO (XO (XO (XO (XI (XI (XI (XO (XI
+      XH)))))))))))))))) u)
+    (N.leb u (Npos (XI (XI (XI (XI (XI (XI (XI (XI (XI (XI (XI (XI (XI (XO
+      (XI XH)))))))))))))))))
+
+(** val utf16_scalars : n list -> text option **)
+
+let rec utf16_scalars = function
+| [] -> Some []
+| u :: r ->
+  if is_high u
+  then (match r with
+        | [] -> None
+        | v :: r' ->
+          if is_low v
+          then ocons
+                 (N.add
+                   (N.add (Npos (XO (XO (XO (XO (XO (XO (XO (XO (XO (XO (XO
+                     (XO (XO (XO (XO (XO XH)))))))))))))))))
+                     (N.mul
+                       (N.sub u (Npos (XO (XO (XO (XO (XO (XO (XO (XO (XO (XO
+                         (XO (XI (XI (XO (XI XH))))))))))))))))) (Npos (XO
+                       (XO (XO (XO (XO (XO (XO (XO (XO (XO XH)))))))))))))
+                   (N.sub v (Npos (XO (XO (XO (XO (XO (XO (XO (XO (XO (XO (XI
+                     (XI (XI (XO (XI XH)))))))))))))))))) (utf16_scalars r')
+          else None)
+  else if is_low u then None else ocons u (utf16_scalars r)
+
+(** val utf16_decode : bool -> bytes -> text option **)
+
+let utf16_decode le b =
+  match units_of_bytes le b with
+  | Some us -> utf16_scalars us
+  | None -> None
+
+(** val utf16le_decode : bytes -> text option **)
+
+let utf16le_decode =
+  utf16_decode true
+
+(** val utf16be_decode : bytes -> text option **)
+
+let utf16be_decode =
+  utf16_decode false
+
+type enc =
+| Utf8
+| Utf16le
+| Utf16be
+| Legacy of nat
+
+(** val bom_utf8 : bytes **)
+
+let bom_utf8 =
+  (Npos (XI (XI (XI (XI (XO (XI (XI XH)))))))) :: ((Npos (XI (XI (XO (XI (XI
+    (XI (XO XH)))))))) :: ((Npos (XI (XI (XI (XI (XI (XI (XO
+    XH)))))))) :: []))
+
+(** val bom_utf16le : bytes **)
+
+let bom_utf16le =
+  (Npos (XI (XI (XI (XI (XI (XI (XI XH)))))))) :: ((Npos (XO (XI (XI (XI (XI
+    (XI (XI XH)))))))) :: [])
+
+(** val bom_utf16be : bytes **)
+
+let bom_utf16be =
+  (Npos (XO (XI (XI (XI (XI (XI (XI XH)))))))) :: ((Npos (XI (XI (XI (XI (XI
+    (XI (XI XH)))))))) :: [])
+
+(** val for_bom : bytes -> (enc * nat) option **)
+
+let for_bom buf =
+  if is_prefix bom_utf8 buf
+  then Some (Utf8, (S (S (S O))))
+  else if is_prefix bom_utf16le buf
+       then Some (Utf16le, (S (S O)))
+       else if is_prefix bom_utf16be buf
+            then Some (Utf16be, (S (S O)))
+            else None
+
+(** val bom_bytes : bytes option -> bytes **)
+
+let bom_bytes = function
+| Some b -> b
+| None -> []
+
+(** val decode_with :
+    (nat -> bytes -> text option) -> enc -> bytes -> text option **)
+
+let decode_with legacy_decode e body =
+  match e with
+  | Utf8 -> utf8_decode body
+  | Utf16le -> utf16le_decode body
+  | Utf16be -> utf16be_decode body
+  | Legacy id -> legacy_decode id body
+
+(** val select_encoding : enc -> bytes -> (enc * bytes option) * bytes **)
+
+let select_encoding configured buf =
+  match for_bom buf with
+  | Some p -> let (e, n0) = p in ((e, (Some (firstn n0 buf))), (skipn n0 buf))
+  | None -> ((configured, None), buf)
+
+(** val decode_file :
+    (nat -> bytes -> text option) -> enc -> bytes -> ((bytes
+    option * enc) * text) option **)
+
+let decode_file legacy_decode configured buf =
+  let (p, body) = select_encoding configured buf in
+  let (e, bom) = p in
+  (match decode_with legacy_decode e body with
+   | Some t -> Some ((bom, e), t)
+   | None -> None)
+
+(** val encode_with :
+    (nat -> text -> bytes option) -> enc -> text -> bytes option **)
+
+let encode_with legacy_encode e t =
+  match e with
+  | Utf8 -> Some (utf8_encode t)
+  | Utf16le -> Some (encode_utf16le t)
+  | Utf16be -> Some (encode_utf16be t)
+  | Legacy id -> legacy_encode id t
+
+(** val write_bytes :
+    (nat -> text -> bytes option) -> enc -> bytes option -> text -> bytes
+    option **)
+
+let write_bytes legacy_encode e bom t =
+  match encode_with legacy_encode e t with
+  | Some b -> Some (app (bom_bytes bom) b)
+  | None -> None
+
+type file = { f_content : bytes; f_pos : nat; f_writable : bool }
+
+(** val zeros : nat -> bytes **)
+
+let zeros n0 =
+  repeat N0 n0
+
+(** val read_to_end : file -> bytes -> bytes * file **)
+
+let read_to_end f buf =
+  ((app buf (skipn f.f_pos f.f_content)), { f_content = f.f_content; f_pos =
+    (Nat.max f.f_pos (length f.f_content)); f_writable = f.f_writable })
+
+(** val seek0 : file -> file **)
+
+let seek0 f =
+  { f_content = f.f_content; f_pos = O; f_writable = f.f_writable }
+
+(** val overwrite : nat -> bytes -> bytes -> bytes **)
+
+let overwrite p data c =
+  app (firstn p c)
+    (app (zeros (sub p (length c)))
+      (app data (skipn (add p (length data)) c)))
+
+(** val write_all : bytes -> file -> file option **)
+
+let write_all data f =
+  match data with
+  | [] -> Some f
+  | _ :: _ ->
+    if f.f_writable
+    then Some { f_content = (overwrite f.f_pos data f.f_content); f_pos =
+           (add f.f_pos (length data)); f_writable = true }
+    else None
+
+(** val set_len : nat -> file -> file option **)
+
+let set_len n0 f =
+  if f.f_writable
+  then Some { f_content =
+         (app (firstn n0 f.f_content) (zeros (sub n0 (length f.f_content))));
+         f_pos = f.f_pos; f_writable = true }
+  else None
+
+(** val stdout_write_all : bytes -> bytes -> bytes option **)
+
+let stdout_write_all data w =
+  Some (app w data)
+
+(** val write_to :
+    (nat -> text -> bytes option) -> (bytes -> 'a1 -> 'a1 option) -> 'a1 ->
+    enc -> bytes option -> text -> 'a1 * nat option **)
+
+let write_to legacy_encode wa w e bom data =
+  match encode_with legacy_encode e data with
+  | Some ob ->
+    (match match bom with
+           | Some b -> wa b w
+           | None -> Some w with
+     | Some w1 ->
+       (match wa ob w1 with
+        | Some w2 -> (w2, (Some (add (length (bom_bytes bom)) (length ob))))
+        | None -> (w1, None))
+     | None -> (w, None))
+  | None -> (w, None)
+
+type result_op =
+  file -> ((bytes option * enc) * text) -> text -> (file * bytes) * bool
+
+(** val exec_one :
+    (nat -> bytes -> text option) -> (text -> text) -> bool -> result_op ->
+    bytes -> enc -> bytes -> (bytes * bytes) * bool **)
+
+let exec_one legacy_decode format writable op0 prev cfg c =
+  let f0 = { f_content = c; f_pos = O; f_writable = writable } in
+  let (buf, f1) = read_to_end f0 prev in
+  (match decode_file legacy_decode cfg buf with
+   | Some d ->
+     let (_, t) = d in
+     let (p, err) = op0 f1 d (format t) in
+     let (f2, out) = p in ((f2.f_content, out), err)
+   | None -> ((f1.f_content, []), true))
+
+(** val op_format_files : (nat -> text -> bytes option) -> result_op **)
+
+let op_format_files legacy_encode f d out =
+  let (p, t) = d in
+  let (bom, e) = p in
+  if bytes_eqb t out
+  then ((f, []), false)
+  else let f2 = seek0 f in
+       let (f3, o) = write_to legacy_encode write_all f2 e bom out in
+       (match o with
+        | Some n0 ->
+          (match set_len n0 f3 with
+           | Some f4 -> ((f4, []), false)
+           | None -> ((f3, []), true))
+        | None -> ((f3, []), true))
+
+(** val op_files_to_stdout : bytes -> result_op **)
+
+let op_files_to_stdout path f _ out =
+  ((f,
+    (app path
+      (app ((Npos (XO (XI (XO (XI (XI XH)))))) :: ((Npos (XO (XI (XO
+        XH)))) :: []))
+        (app (utf8_encode out) ((Npos (XO (XI (XO XH)))) :: []))))), false)
+
+(** val op_check : result_op **)
+
+let op_check f d out =
+  let (_, t) = d in ((f, []), (negb (bytes_eqb t out)))
+
+(** val files_mode_from :
+    (nat -> bytes -> text option) -> (nat -> text -> bytes option) -> (text
+    -> text) -> bytes -> enc -> bytes -> (bytes * bytes) * bool **)
+
+let files_mode_from legacy_decode legacy_encode format prev =
+  exec_one legacy_decode format true (op_format_files legacy_encode) prev
+
+(** val files_mode :
+    (nat -> bytes -> text option) -> (nat -> text -> bytes option) -> (text
+    -> text) -> enc -> bytes -> (bytes * bytes) * bool **)
+
+let files_mode legacy_decode legacy_encode format =
+  files_mode_from legacy_decode legacy_encode format []
+
+(** val files_to_stdout_mode :
+    (nat -> bytes -> text option) -> (text -> text) -> bytes -> enc -> bytes
+    -> (bytes * bytes) * bool **)
+
+let files_to_stdout_mode legacy_decode format path =
+  exec_one legacy_decode format false (op_files_to_stdout path) []
+
+(** val check_files_mode :
+    (nat -> bytes -> text option) -> (text -> text) -> enc -> bytes ->
+    (bytes * bytes) * bool **)
+
+let check_files_mode legacy_decode format =
+  exec_one legacy_decode format false op_check []
+
+(** val stdin_mode :
+    (nat -> bytes -> text option) -> (nat -> text -> bytes option) -> (text
+    -> text) -> bool -> enc -> bytes -> bytes * bool **)
+
+let stdin_mode legacy_decode legacy_encode format tty cfg input =
+  match decode_file legacy_decode cfg input with
+  | Some p ->
+    let (p0, t) = p in
+    let (bom, e) = p0 in
+    let out = format t in
+    if tty
+    then let e' = Utf8 in
+         let bom' = None in
+         let (w, o) = write_to legacy_encode stdout_write_all [] e' bom' out
+         in
+         (match o with
+          | Some _ -> (w, false)
+          | None -> (w, true))
+    else let (w, o) = write_to legacy_encode stdout_write_all [] e bom out in
+         (match o with
+          | Some _ -> (w, false)
+          | None -> (w, true))
+  | None -> ([], true)
+
+(** val check_stdin_mode :
+    (nat -> bytes -> text option) -> (text -> text) -> enc -> bytes -> bool **)
+
+let check_stdin_mode legacy_decode format cfg input =
+  match decode_file legacy_decode cfg input with
+  | Some p -> let (_, t) = p in negb (bytes_eqb t (format t))
+  | None -> true
 
 module MLStringJoin =
  struct
